@@ -591,6 +591,11 @@ func (env *SpecEnv) selectField(base Value, name string) Value {
 		var arr Term
 		if env.view == nil {
 			arr = env.e.cur(env.st, key, sort, false)
+			if fseq, isFresh := env.st.freshSeq[p.Base.S]; isFresh && env.inQuant == 0 {
+				if r, ok := env.st.roots[key]; ok && r.seq < fseq {
+					env.st.assert(Eq(Select(r.t, p.Base), zeroOf(sort)))
+				}
+			}
 		} else {
 			arr = env.e.curIn(env.view, key, sort, false)
 		}
@@ -606,6 +611,10 @@ func (env *SpecEnv) selectField(base Value, name string) Value {
 		for i := 0; i < st.NumFields(); i++ {
 			if st.Field(i).Name() == name {
 				fp := fieldPlace(p, pt.Elem(), st, i)
+				if _, isStruct := st.Field(i).Type().Underlying().(*types.Struct); isStruct && !transparentStruct(st.Field(i).Type()) {
+					// an embedded library struct (bytes.Buffer, sync.Mutex, ...): denote it by its address
+					return Value{T: types.NewPointer(st.Field(i).Type()), L: []Term{p.Base}, P: fp}
+				}
 				return env.e.loadPlace(env.st, fp, env.view)
 			}
 		}
@@ -822,6 +831,14 @@ func (env *SpecEnv) evalCall(x *SExpr) Value {
 			return Value{T: tF64, L: []Term{App(SReal, "to_real", v)}}
 		}
 		return Value{T: tF64, L: []Term{v}}
+	case "bytes":
+		// bytes(p): the bytes of slice p as a string: the window [off, off+len) of its backing array's content
+		v := ev(0)
+		arr := env.e.cur(env.st, "ghost:bytes$str", SStr, false)
+		if env.view != nil {
+			arr = env.e.curIn(env.view, "ghost:bytes$str", SStr, false)
+		}
+		return strV(App(SStr, "str.substr", Select(arr, sliceBase(v)), sliceOff(v), sliceLen(v)))
 	case "bytestr":
 		// the string a []byte was converted from (valid for the whole, unmodified slice)
 		v := ev(0)
@@ -844,6 +861,12 @@ func (env *SpecEnv) evalCall(x *SExpr) Value {
 		fname := env.e.sprintfName(f.S, sorts)
 		env.e.declareFun(fname, sorts, SStr)
 		return strV(App(SStr, fname, leaves...))
+	case "oncePtr":
+		// identity of the sync.Once embedded in a Buffer (b.closeOnce)
+		v := ev(0)
+		fv := env.selectField(v, "closeOnce")
+		env.e.declareFun("fptr", []Sort{SInt, SInt}, SInt)
+		return Value{T: tRef, L: []Term{App(SInt, "fptr", fv.P.Base, IntLit(int64(env.e.pathID(placeKeyOnly(fv.P)))))}}
 	case "atomicbool":
 		// value of a sync/atomic.Bool (by address)
 		v := ev(0)
